@@ -30,6 +30,8 @@ thread_local! {
     /// what `map_block` does to a block: insert yields (0), or wrap every statement in a transparent try
     /// statement (1: try/finally, 2: try/catch that throws the exception again, 3: both, nested)
     static BLOCK_MODE: std::cell::Cell<u8> = std::cell::Cell::new(0);
+    /// every call and method call goes through a wrapper lambda (see `calls_through_wrappers`)
+    static WRAP_CALLS: std::cell::Cell<bool> = std::cell::Cell::new(false);
 }
 
 /// Transparent try statements (C08): `try { S } finally { }` and `try { S } catch e { throw e; }` around a
@@ -125,6 +127,8 @@ fn map_expr(e: &Expr, v: bool) -> Expr {
         Expr::Binary(op, a, b) => Expr::Binary(*op, bx(a, v), if matches!(op, BinOp::Range) { bx(b, v) } else { Box::new(mid(map_expr(b, v))) }),
         Expr::And(a, b) => Expr::And(bx(a, v), bx(b, v)),
         Expr::Or(a, b) => Expr::Or(bx(a, v), bx(b, v)),
+        Expr::Call(f, args) if WRAP_CALLS.with(|w| w.get()) => wrap_call(map_expr(f, v), map_exprs(args, v)),
+        Expr::Invoke(r, id, args) if WRAP_CALLS.with(|w| w.get()) => wrap_invoke(map_expr(r, v), id, map_exprs(args, v)),
         Expr::Call(f, args) => Expr::Call(bx(f, v), map_operands(args, v)),
         Expr::Invoke(r, id, args) => Expr::Invoke(bx(r, v), id.clone(), map_operands(args, v)),
         Expr::Get(r, id) => Expr::Get(bx(r, v), id.clone()),
@@ -170,6 +174,9 @@ fn map_stmt(s: &Stmt, v: bool) -> Stmt {
 /// `break`, `continue` or `throw` would be dead code and is left out)
 fn map_block(b: &[Stmt], v: bool) -> Vec<Stmt> {
     let mode = BLOCK_MODE.with(|m| m.get());
+    if mode == 4 {
+        return b.iter().map(|s| map_stmt(s, v)).collect();
+    }
     if mode != 0 {
         return b.iter().map(|s| wrap_try(map_stmt(s, v), mode)).collect();
     }
@@ -328,6 +335,52 @@ pub fn displaced_cases(family: &'static str, corpus: &[crate::mcheck::Case], loc
                 out.push(n);
             }
         }
+    }
+    out
+}
+
+/// Calls through a wrapper (C06): `f(a, b)` does what `(|x, y| f(x, y))(a, b)` does, and `r.m(a)` what
+/// `(|o, x| o.m(x))(r, a)` does - the callee expression is evaluated inside a closure that has captured every
+/// variable it mentions, in every function, loop body and try block of the program, so every call site creates
+/// a closure over the variables in scope and lets it die again.  The reference evaluator runs the same
+/// transformed program (the arguments are now evaluated before the callee expression, and every call is one
+/// activation deeper; both are in the transformed source for it to see).
+pub fn calls_through_wrappers(body: &[Stmt]) -> Vec<Stmt> {
+    WRAP_CALLS.with(|m| m.set(true));
+    BLOCK_MODE.with(|m| m.set(4));
+    let out = map_block(body, false);
+    BLOCK_MODE.with(|m| m.set(0));
+    WRAP_CALLS.with(|m| m.set(false));
+    out
+}
+
+fn wrap_call(f: Expr, args: Vec<Expr>) -> Expr {
+    let params: Vec<String> = (0..args.len()).map(|i| format!("zz_a{}", i)).collect();
+    let refs: Vec<&str> = params.iter().map(|s| s.as_str()).collect();
+    let inner = Expr::Call(Box::new(f), params.iter().map(|p| var(p)).collect());
+    Expr::Call(Box::new(Expr::Paren(Box::new(lambda_expr(&refs, inner)))), args)
+}
+
+fn wrap_invoke(r: Expr, name: &str, args: Vec<Expr>) -> Expr {
+    let mut params: Vec<String> = vec!["zz_o".to_string()];
+    params.extend((0..args.len()).map(|i| format!("zz_a{}", i)));
+    let refs: Vec<&str> = params.iter().map(|s| s.as_str()).collect();
+    let inner = Expr::Invoke(Box::new(var("zz_o")), name.to_string(), params[1..].iter().map(|p| var(p)).collect());
+    let mut all = vec![r];
+    all.extend(args);
+    Expr::Call(Box::new(Expr::Paren(Box::new(lambda_expr(&refs, inner)))), all)
+}
+
+pub fn wrapper_cases(family: &'static str, corpus: &[crate::mcheck::Case]) -> Vec<crate::mcheck::Case> {
+    let mut out = Vec::new();
+    for c in corpus {
+        if c.impl_src.is_some() || !c.prelude.is_empty() || c.piecewise {
+            continue;
+        }
+        let mut n = crate::mcheck::Case::new(family, calls_through_wrappers(&c.prog));
+        n.modules = c.modules.clone();
+        n.opts = crate::diff::CmpOpts { trace: false, kind: c.opts.kind };
+        out.push(n);
     }
     out
 }
